@@ -58,7 +58,8 @@ POINTS = ['tmgr_sched', 'tmgr_stagein', 'agent_stagein', 'agent_sched',
           'exec_find_launcher', 'exec_script', 'agent_stageout',
           'tmgr_stageout']
 BULKS  = ['work:agent_stagein', 'work:agent_stageout', 'work:tmgr_stagein']
-FATES  = ['ok', 'ok', 'ok', 'exit', 'exit', 'no_launcher', 'unfittable',
+FATES  = ['ok', 'ok', 'ok', 'exit', 'exit', 'signal', 'no_launcher',
+          'unfittable',
           'cancel_early', 'cancel_run', 'timeout', 'ok_staged',
           'missing_input', 'missing_output'] + \
          ['poison:' + p for p in POINTS] + BULKS
@@ -71,6 +72,7 @@ def gen_case(rng):
         fate = rng.choice(FATES)
         tasks.append({'uid': 't.%02d' % i, 'fate': fate,
                       'code': rng.choice([1, 2, 7, 42]),
+                      'sig': rng.choice(['TERM', 'KILL', 'HUP', 'SEGV']),
                       'dur': rng.choice([0, 0, 0.05, 0.2]),
                       'at': rng.choice([0.0, 0.05, 0.2, 0.5])})
     return {'seed': rng.randint(0, 2 ** 30), 'tasks': tasks,
@@ -84,6 +86,11 @@ def describe(t, root):
           'arguments': ['-c', 'sleep %s; exit 0' % t['dur']]}
     if fate == 'exit':
         kw['arguments'] = ['-c', 'sleep %s; exit %d' % (t['dur'], t['code'])]
+    elif fate == 'signal':
+        # the task's whole process group (launch script included) is killed
+        # by a signal nobody in RP sent (OOM killer, admin, the job itself)
+        kw['arguments'] = ['-c', 'sleep %s; kill -%s 0; sleep 5; exit 0'
+                                 % (t['dur'], t.get('sig', 'TERM'))]
     elif fate in ('cancel_run', 'timeout'):
         kw['arguments'] = ['-c', 'sleep 8; exit 0']
         if fate == 'timeout':
@@ -172,13 +179,32 @@ def run_case(ctx, res, case, idx=0):
             mp.tmgr.cancel_tasks(uid)
             mp.hits.add('cancel')
 
-        def wait_final(ts, limit):
-            end = time.time() + limit
-            while time.time() < end:
+        def activity():
+            # transport events which carry something (the Popen watcher's
+            # periodic empty unschedule publication is not activity)
+            with mp.net.lock:
+                n = mp.net.seq
+                k = getattr(mp.net, '_rpverif_idle_marks', 0)
+            return n - k
+
+        def wait_final(ts, limit, idle=12.0, hard=240.0):
+            '''True: all final.  False: not final although nothing moved for
+            `idle` seconds after `limit` (stuck).  None: still busy at the hard
+            limit (inconclusive, a loaded machine)'''
+            t_start = time.time()
+            last_n, last_t = activity(), time.time()
+            while True:
                 if all(t.state in rps.FINAL for t in ts):
                     return True
+                now = time.time()
+                n = activity()
+                if n != last_n:
+                    last_n, last_t = n, now
+                if now - t_start > limit and now - last_t > idle:
+                    return False
+                if now - t_start > hard:
+                    return None
                 time.sleep(0.05)
-            return False
 
         ok1 = wait_final(tasks, 45)
         time.sleep(0.3)                       # late duplicates would show now
@@ -230,6 +256,9 @@ def judge(case, res, mp, by_uid, seen, ok1, tasks2, ok2):
         finals = [s for u, s in seen if u == uid and s in rps.FINAL]
 
         if task.state not in rps.FINAL:
+            if ok1 is None:
+                res.count('busy_at_hard_limit_not_judged')
+                continue
             viol('task-not-final/%s' % fate.split(':')[0],
                  '%s (%s) is %s' % (uid, fate, task.state))
             continue
@@ -249,6 +278,14 @@ def judge(case, res, mp, by_uid, seen, ok1, tasks2, ok2):
             truth = [(rps.DONE, 0)]
         elif fate == 'exit':
             truth = [(rps.FAILED, t['code'])]
+        elif fate == 'signal':
+            # killed by a signal: not a success; any non-zero code
+            truth = [(rps.FAILED, None)]
+            if st == rps.FAILED and ec in (0, None) and \
+               'Poison' not in str(exc):
+                viol('signal-exit-code-lost', '%s: FAILED with exit code %s '
+                     'after signal %s' % (uid, ec, t.get('sig')))
+            res.count('signal_endings_judged')
         elif fate == 'cancel_early':
             truth = [(rps.CANCELED, None), (rps.DONE, 0)]
         elif fate in ('cancel_run', 'timeout'):
@@ -278,13 +315,15 @@ def judge(case, res, mp, by_uid, seen, ok1, tasks2, ok2):
             viol(mech, '%s (%s): %s exit %s exc %s, truth %s'
                  % (uid, fate, st, ec, exc, truth))
             continue
-        if st == rps.FAILED and fate != 'exit' and not exc:
+        if st == rps.FAILED and fate not in ('exit', 'signal') and not exc:
             viol('failed-without-exception', '%s (%s)' % (uid, fate))
         if st == rps.FAILED and fate == 'exit' and ec != t['code']:
             viol('exit-code-lost', '%s: %s != %s' % (uid, ec, t['code']))
 
-    if not ok1 and not any(v['mechanism'].startswith('task-not-final')
-                           for v in res.violations):
+    if ok1 is None:
+        res.inconc('first wave still busy at the hard wall-clock limit')
+    elif not ok1 and not any(v['mechanism'].startswith('task-not-final')
+                             for v in res.violations):
         res.inconc('first wave not final, yet every task final at judgement')
 
     dead = mp.alive()
@@ -292,6 +331,8 @@ def judge(case, res, mp, by_uid, seen, ok1, tasks2, ok2):
         viol('component-died', 'dead threads: %s' % dead)
     if ok2 and all(t.state == rps.DONE for t in tasks2):
         res.count('second_wave_ok')
+    elif ok2 is None:
+        res.inconc('second wave still busy at the hard wall-clock limit')
     else:
         viol('second-wave-does-not-complete',
              'later tasks: %s' % [(t.uid, t.state) for t in tasks2])
